@@ -768,6 +768,9 @@ def op_strategy(draw, kind, h_us, span_us):
     else:
         start = {"epoch": 0, "after": draw(go.uniform_int(1, span_us)), "before": -draw(go.uniform_int(1, span_us))}[start_kind]
     step = draw(st.sampled_from([h_us, h_us // 2, h_us * 3, draw(go.uniform_int(h_us // 10, 5 * h_us))]))
+    if draw(st.integers(0, 5)) == 0:
+        # sub-second steps that are not binary fractions (0.1 s is not a float): a span of k such steps holds k + 1 dates
+        step = draw(st.sampled_from([100_000, 200_000, 50_000, 1_100_000, 300_000, 700_000, 10_000, 2_500_000]))
     whole = draw(st.integers(0, 9)) < 5
     nsteps = draw(st.integers(0, 40)) * 100 + (0 if whole else draw(st.integers(1, 99)))
     back = draw(st.integers(0, 3)) == 0
